@@ -10,7 +10,10 @@ import (
 	"fmt"
 	"sort"
 	"strings"
+	"sync"
 	"sync/atomic"
+	"time"
+	"unsafe"
 
 	evalfilter "github.com/skx/evalfilter/v2"
 	"github.com/skx/evalfilter/v2/code"
@@ -95,6 +98,7 @@ type Evaluator struct {
 
 	prevCall  bool
 	invariant string
+	noHook    bool
 }
 
 // Describe renders an engine object as "TYPE:printed".
@@ -138,7 +142,7 @@ func (ev *Evaluator) record(name string, args []object.Object) {
 // (returns its first argument), sets variables and calls Prepare. A panic
 // escaping Prepare is reported as an error wrapping ErrPanic.
 func New(script string, opt Options) (ev *Evaluator, err error) {
-	ev = &Evaluator{Script: script, budget: opt.Budget, traceCap: opt.TraceCap}
+	ev = &Evaluator{Script: script, budget: opt.Budget, traceCap: opt.TraceCap, noHook: opt.NoHook}
 	if ev.budget == 0 {
 		ev.budget = 2000000
 	}
@@ -193,7 +197,7 @@ func (ev *Evaluator) installHook() {
 		return
 	}
 	m.VerifSetStepHook(func(m *vm.VM, ip int, op code.Opcode) error {
-		ev.steps++
+		atomic.AddInt64(&ev.steps, 1)
 		// invariant: the body of a user-defined function starts on an empty value stack
 		if ev.prevCall && ip == 0 && ev.invariant == "" {
 			if d := m.VerifStackDepth(); d != 0 {
@@ -233,14 +237,15 @@ func (ev *Evaluator) installHook() {
 }
 
 // Steps returns the instructions dispatched by the last run.
-func (ev *Evaluator) Steps() int64 { return ev.steps }
+func (ev *Evaluator) Steps() int64 { return atomic.LoadInt64(&ev.steps) }
 
 // Exec runs Execute on the object and records the observation.
 func (ev *Evaluator) Exec(obj interface{}) (o Obs) {
 	ev.trace = nil
 	ev.traceBytes = 0
-	ev.steps = 0
+	atomic.StoreInt64(&ev.steps, 0)
 	ev.prevCall, ev.invariant = false, ""
+	defer watch(ev, "Execute")()
 	defer func() {
 		if r := recover(); r != nil {
 			o.Panicked = true
@@ -275,7 +280,8 @@ func (ev *Evaluator) Exec(obj interface{}) (o Obs) {
 func (ev *Evaluator) RunBool(obj interface{}) (b bool, err error, panicked bool, msg string) {
 	ev.trace = nil
 	ev.traceBytes = 0
-	ev.steps = 0
+	atomic.StoreInt64(&ev.steps, 0)
+	defer watch(ev, "Run")()
 	defer func() {
 		if r := recover(); r != nil {
 			panicked = true
@@ -491,4 +497,92 @@ func (ev *Evaluator) ConstDump() string {
 // MainBytecode returns the bytecode the machine is currently pointed at.
 func (ev *Evaluator) MainBytecode() string {
 	return fmt.Sprintf("%x", []byte(ev.E.VerifMachine().VerifBytecode()))
+}
+
+// ---------------------------------------------------------------------------
+// Hang monitor. Every Execute / Run made through the adapter is registered while it is
+// in flight; one background goroutine looks at the registered calls once a second. A
+// call that has dispatched no instruction for HangAfter (the step hook counts them) is
+// stuck inside a single instruction - no deadline can reach it there - and OnHang is
+// called (once). The verdict is state-based (no progress in logical steps); the clock
+// only decides when to look. Calls made without the hook have no step counter: for them
+// the handler is called with steps = -1 after four times as long (inconclusive).
+
+// HangAfter is how long a call may sit in one instruction before OnHang is called.
+var HangAfter = 45 * time.Second
+
+// OnHang is set by the driver; nil disables the monitor.
+var OnHang func(script, api string, steps int64, stuck time.Duration)
+
+type flight struct {
+	api        string
+	lastSteps  int64
+	lastChange time.Time
+	reported   bool
+}
+
+const flightShards = 32
+
+var (
+	flights     [flightShards]map[*Evaluator]*flight
+	flightLocks [flightShards]sync.Mutex
+	monitorOnce sync.Once
+)
+
+func shardOf(ev *Evaluator) int { return int((uintptr(unsafe.Pointer(ev)) >> 6) % flightShards) }
+
+func watch(ev *Evaluator, api string) func() {
+	if OnHang == nil {
+		return func() {}
+	}
+	monitorOnce.Do(func() { go monitor() })
+	sh := shardOf(ev)
+	flightLocks[sh].Lock()
+	if flights[sh] == nil {
+		flights[sh] = map[*Evaluator]*flight{}
+	}
+	flights[sh][ev] = &flight{api: api, lastChange: time.Now()}
+	flightLocks[sh].Unlock()
+	return func() {
+		flightLocks[sh].Lock()
+		delete(flights[sh], ev)
+		flightLocks[sh].Unlock()
+	}
+}
+
+func monitor() {
+	for {
+		time.Sleep(time.Second)
+		now := time.Now()
+		for sh := 0; sh < flightShards; sh++ {
+			var stuck []*Evaluator
+			var infos []flight
+			flightLocks[sh].Lock()
+			for ev, f := range flights[sh] {
+				cur := atomic.LoadInt64(&ev.steps)
+				limit := HangAfter
+				if ev.noHook {
+					// no step counter to look at: only a (longer) wall-clock watchdog, whose
+					// firing the handler must treat as inconclusive
+					cur, limit = -1, 4*HangAfter
+					if f.lastSteps != -1 {
+						f.lastSteps = -1
+					}
+				}
+				if cur != f.lastSteps {
+					f.lastSteps, f.lastChange = cur, now
+				} else if !f.reported && now.Sub(f.lastChange) > limit {
+					f.reported = true
+					stuck = append(stuck, ev)
+					infos = append(infos, *f)
+				}
+			}
+			flightLocks[sh].Unlock()
+			for i, ev := range stuck {
+				if h := OnHang; h != nil {
+					h(ev.Script, infos[i].api, infos[i].lastSteps, now.Sub(infos[i].lastChange))
+				}
+			}
+		}
+	}
 }
